@@ -403,8 +403,8 @@ def run(ctx):
                     case = json.loads(l)
                     trees.append((case["tree"], [[tuple(f) for f in case["filters"]]]))
                     ncorpus += 1
-        ntrees = ctx.n(40, 2000)
-        nsets = ctx.n(10, 40)
+        ntrees = ctx.n(40, 400)
+        nsets = ctx.n(10, 20)
         for i in range(ntrees):
             root = gen_tree(rng)
             trees.append((root, None, nsets))
